@@ -119,7 +119,7 @@ def cl_describe(c, exp, r):
 
 
 def bind_chunklist(ctx, h):
-    num = ctx.pick(240, 4000)
+    num = ctx.pick(240, 2000)
     gen = ctx.tlc("MC_ChunkList", "Gen_ChunkList.cfg", workers=4, timeout=1500, label="gen-chunklist",
                   args=["-simulate", "num=%d" % (num // 4), "-depth", "18", "-seed", str(ctx.seed)])
     cases = gen.json_items("CASE")
@@ -432,6 +432,15 @@ def run_tty(fzf, job):
     return rec
 
 
+def run_tty_retry(fzf, job):
+    """a session that could not be set up (port taken between probing and binding, tmux hiccup) is tried once more"""
+    try:
+        return run_tty(fzf, job)
+    except Infra as ex:
+        log("interactive session set-up failed, retrying once:", ex)
+        return run_tty(fzf, job)
+
+
 def bind_tty(ctx):
     fzf = ctx.build_fzf()
     rng = ctx.rng
@@ -441,7 +450,7 @@ def bind_tty(ctx):
                      "path": "interactive", "read0": rng.random() < 0.3, "header": rng.choice([0, 0, 1, 3]),
                      "tail": rng.choice([0, 1, 2, 7, 99, 100, 101, 250, 1000]), "nth": rng.choice(["", "", "..", "{n} {1}"]),
                      "work": ctx.work})
-    recs, bad = judge_binary(ctx, fzf, jobs, run_tty, "tty", 4)
+    recs, bad = judge_binary(ctx, fzf, jobs, run_tty_retry, "tty", 4)
     ctx.cov["interactive_sessions"] = {"runs": len(recs), "rejected": len(bad),
                                        "with_tail_effective": sum(1 for r in recs if r["tail"] and len(r["lens"]) - r["header"] > r["tail"]),
                                        "with_header": sum(1 for r in recs if r["header"]),
@@ -544,7 +553,7 @@ def replay_one(ctx, h):
         job = dict(case["job"])
         if label == "tty":
             job["work"] = ctx.work
-        judge_binary(ctx, ctx.build_fzf(), [job], run_tty if label == "tty" else run_filter, label, 1)
+        judge_binary(ctx, ctx.build_fzf(), [job], run_tty_retry if label == "tty" else run_filter, label, 1)
     else:
         raise Infra("unknown replay file")
     return "model_checking"
